@@ -25,6 +25,31 @@ def _ia(ia, name):
     return InitialAssignment(fn=_fn(ia["args"], ia["expr"], f"init_{name}"), args=list(ia["args"]))
 
 
+_CUSTOM = None
+
+
+def custom_surrogate_class():
+    """A user-defined surrogate (subclass of the public AbstractSurrogate): `predict` returns a name-keyed mapping -
+    here in the reverse of the declared output order, which a mapping is free to have."""
+    global _CUSTOM
+    if _CUSTOM is None:
+        from dataclasses import dataclass, field
+
+        from mxlpy.surrogates.abstract import AbstractSurrogate
+
+        @dataclass(kw_only=True)
+        class ReversedDictSurrogate(AbstractSurrogate):
+            fns: list = field(default_factory=list)
+
+            def predict(self, args):
+                vals = [args[a] for a in self.args]
+                out = {o: f(*vals) for o, f in zip(self.outputs, self.fns, strict=True)}
+                return dict(reversed(list(out.items())))
+
+        _CUSTOM = ReversedDictSurrogate
+    return _CUSTOM
+
+
 def build(spec):
     from mxlpy import Model
     from mxlpy.surrogates import qss
@@ -58,6 +83,16 @@ def build(spec):
                 n,
                 poly.Surrogate(
                     model=Polynomial(list(c["poly"])),
+                    args=list(c["args"]),
+                    outputs=list(c["outputs"]),
+                    stoichiometries={o: {v: _coef(cf, o, v) for v, cf in st.items()} for o, st in c["stoich"].items()},
+                ),
+            )
+        elif k == "surrogate" and c.get("custom"):
+            m.add_surrogate(
+                n,
+                custom_surrogate_class()(
+                    fns=[_fn(c["args"], e, f"s_{n}_{i}") for i, e in enumerate(c["exprs"])],
                     args=list(c["args"]),
                     outputs=list(c["outputs"]),
                     stoichiometries={o: {v: _coef(cf, o, v) for v, cf in st.items()} for o, st in c["stoich"].items()},
